@@ -10,6 +10,7 @@ verus! {
 global size_of usize == 8;
 
 //@include prelude/inc_pwl_core.rs
+//@include prelude/lp_oracle_spec.rs
 
 impl<N, const K: usize> Tree<N, K> {
 // contracts proved in unit tree_graph (prelude/inc_tree_edit.rs).  remove_child is used WITHOUT its arena-size precondition (the i32 deletion counter of
@@ -41,11 +42,8 @@ pub fn remove_child(&mut self, parent: TreeIndex, label: Label) -> (r: N)
 //@end
 
 impl<const K: usize> AffTree<K> {
-// ASSUMED (LP based, body not verified): edges leaving node 0 (the root of every tree built by the library) are reported feasible; otherwise ANY answer
-#[verifier::external_body]
-pub fn is_edge_feasible(&self, parent_idx: TreeIndex, node_idx: TreeIndex) -> (r: bool)
-    ensures parent_idx == 0 ==> r
-{ unimplemented!() }
+// contract proved in unit pwl_feasible on the real body (root shortcut; verdicts only from Infeasible evidence); the LP layer behind it stays an oracle
+//@assumed units/pwl_feasible.rs | is_edge_feasible
 
 //@fn src/pwl/afftree.rs | impl<const K: usize> AffTree<K> | update_node
 //@spec
@@ -64,6 +62,7 @@ pub fn is_edge_feasible(&self, parent_idx: TreeIndex, node_idx: TreeIndex) -> (r
 }
 //@fn src/pwl/impl_composition.rs | impl CompositionSchema for FunctionCompositionInfeasible | explore | as=fci_explore
 //@spec
+    requires context.tree.wf(), parent != 0 ==> context.a().dom().contains(child) && context.a()[child].parent == Some(parent)
     ensures parent == 0 ==> r
 //@end
 
